@@ -588,8 +588,132 @@ def scenario(seed, cfg):
     return sim.bad, stats, sim.history
 
 
+def reentrant_close_scenario(seed, cfg):
+    """Directed family (implementation side only; user callbacks that re-enter the client are outside Model/ClientReq.v):
+    several public requests are queued on ONE broker while its connection is not up yet; one of them is a no-reply produce
+    (acks=0) whose callback calls client.close().  When the connection comes up the broker client flushes its queue, the
+    no-reply request completes inside that flush and close() runs there.  Monitor (C20_no_connect_no_write_after_close on
+    the real code): NOTHING is written, no connection is attempted and no DelayedCall is armed after close() was called -
+    in particular not the requests that were queued behind the no-reply one; every other call ends and none succeeds; the
+    caches are empty; once the connection is gone the close Deferred has fired exactly once and no DelayedCall is left."""
+    from afkak import common as C
+    sim = PublicSim(cfg, seed)
+    rnd, c = sim.rnd, sim.client
+    stats = {}
+    # metadata over the bootstrap host: the cluster is known, no broker client is connected yet
+    d = c.load_metadata_for_topics()
+    d.addErrback(lambda f: None)
+    sim.drain()
+    sim.accept_all()
+    for req in list(sim.requests):
+        if not req[3]:
+            sim.reply_to(req)
+    for t in sim.transports():          # the ephemeral bootstrap connection goes away
+        t.report_lost()
+    sim.drain()
+    if sim.net.pending() or not c.topics_to_brokers:
+        sim.B("C20_no_connect_no_write_after_close", "set-up: metadata not loaded over the bootstrap host")
+        return sim.bad, stats, sim.history
+    # all of them on broker 1 (leader of t0/0; coordinator of g0 is looked up first, so group calls are not used here)
+    plan = ["noreply"]
+    others = rnd.randint(1, 3)
+    for _ in range(others):
+        plan.insert(rnd.choice([len(plan), len(plan), 0]), rnd.choice(["produce", "fetch", "offsets0", "noreply_plain"]))
+    closer = []
+
+    def do_close(_r):
+        sim.log.append(("close_called",))
+        closer.append(c.close())
+        closer[0].addCallback(lambda _: setattr(sim, "closefired", sim.closefired + 1))
+        return _r
+    calls = []
+    for what in plan:
+        if what == "noreply":
+            d = c.send_produce_request([C.ProduceRequest("t0", 0, [])], acks=0)
+            d.addCallback(do_close)
+        elif what == "noreply_plain":
+            d = c.send_produce_request([C.ProduceRequest("t0", 0, [])], acks=0)
+        elif what == "produce":
+            d = c.send_produce_request([C.ProduceRequest("t0", 0, [])], acks=1)
+        elif what == "fetch":
+            d = c.send_fetch_request([C.FetchRequest("t0", 0, 0, 1024)])
+        else:
+            d = c.send_offset_request([C.OffsetRequest("t0", 0, -1, 1)])
+        call = Call(what, d, 1, sim.expected_delay(), [("t0", 0)])
+        calls.append(call)
+        sim.history.append((what, "queued"))
+    turn = sim.drain()
+    if turn["writes"] or closer:
+        sim.B("C20_no_connect_no_write_after_close", "set-up: requests were written before the connection was up")
+        return sim.bad, stats, sim.history
+    if len(sim.net.pending()) != 1:
+        sim.B("C20_no_connect_no_write_after_close", "set-up: %d connection attempts for one broker" % len(sim.net.pending()))
+        return sim.bad, stats, sim.history
+    # the connection comes up: the flush, and close() inside it
+    try:
+        sim.net.pending()[0].accept()
+    except Exception as e:
+        sim.B("C20_pending_end", "the flush raised %s: %s" % (type(e).__name__, str(e)[:100]))
+    log = list(sim.log)
+    sim.history.append(("connection up", [e[0] for e in log]))
+    if not closer:
+        sim.B("C20_no_connect_no_write_after_close", "set-up: the no-reply request did not complete in the flush")
+        return sim.bad, stats, sim.history
+    at = [i for i, e in enumerate(log) if e[0] == "close_called"][0]
+    after = [e for e in log[at + 1:] if e[0] in ("write", "connect", "sched")]
+    npos = plan.index("noreply")
+    stats["reentrant_close_with_%d_queued_behind" % (len(plan) - 1 - npos)] = 1
+    if after:
+        sim.B("C20_no_connect_no_write_after_close",
+              "close() called from the callback of a no-reply request during the flush; afterwards: %r (queue %r)"
+              % ([(e[0],) + tuple(x if not isinstance(x, bytes) else len(x) for x in e[1:]) for e in after], plan))
+    sim.drain()
+    sim.closed = True
+    for i, x in enumerate(calls):
+        o = x.outcome()
+        if o == "pending":
+            sim.B("C20_pending_end", "%s (position %d of %r) is unresolved after close() inside the flush" % (x.name, i, plan))
+        elif o == "ok" and i > npos and not x.name.startswith("noreply"):
+            sim.B("C20_pending_fail", "%s queued behind the closing request succeeded" % x.name)
+    if (len(c.topic_errors), len(c.topics_to_brokers), len(c.topic_partitions), len(c.consumer_group_to_brokers)) != (0, 0, 0, 0):
+        sim.B("C20_metadata_cleared", "caches after close() inside the flush are not empty")
+    for t in sim.transports():
+        t.report_lost()
+        sim.drain()
+    if sim.closefired != 1:
+        sim.B("C20_close_fires_last", "every connection is gone and the close Deferred fired %d times" % sim.closefired)
+    if sim.clock.getDelayedCalls():
+        sim.B("C20_pending_end", "DelayedCalls left armed after close() inside the flush: %d" % len(sim.clock.getDelayedCalls()))
+    return sim.bad, stats, sim.history
+
+
 def run_public(ck, which, n):
     """run n seeded scenarios; report violations of the theorems whose names start with one of `which`"""
+    if "C20" in which:
+        rnd = random.Random(ck.seed + 211)
+        nre, nbad = max(12, n // 4), 0
+        tot = {}
+        for k in range(nre):
+            cfg = {"timeout": rnd.choice([5000, 1000, 40000]), "dot": rnd.random() < 0.5, "cancel": rnd.choice(["plain", "connecting"])}
+            seed = rnd.randrange(1 << 30)
+            try:
+                bad, stats, hist = reentrant_close_scenario(seed, cfg)
+            except Exception as e:
+                import traceback
+                ck.violation({"kind": "check-machinery-failure", "where": "re-entrant close scenario", "seed": seed, "cfg": cfg,
+                              "error": repr(e), "traceback": traceback.format_exc()[-2000:]}, no_input=True)
+                break
+            for key, v in stats.items():
+                tot[key] = tot.get(key, 0) + v
+            sel = [b for b in bad if b[0][:3] in which]
+            if sel and nbad < 2:
+                nbad += 1
+                ck.violation({"kind": "monitor (public entry points, close() from a user callback)", "theorem": sel[0][0],
+                              "what": [b[1] for b in sel][:4], "public": True, "family": "reentrant_close", "seed": seed, "cfg": cfg,
+                              "history": [list(map(str, h)) for h in hist], "replay_op": "public"})
+        for key, v in sorted(tot.items()):
+            ck.hist("public_" + key, v)
+        ck.cov["evaluations"] += nre
     rnd = random.Random(ck.seed + 101)
     total = {}
     nbad = 0
@@ -618,7 +742,8 @@ def run_public(ck, which, n):
 
 
 def replay_public(rp, which):
-    bad, stats, hist = scenario(rp["seed"], rp["cfg"])
+    fn = reentrant_close_scenario if rp.get("family") == "reentrant_close" else scenario
+    bad, stats, hist = fn(rp["seed"], rp["cfg"])
     for h in hist:
         print(h)
     sel = [b for b in bad if b[0][:3] in which]
